@@ -118,8 +118,8 @@ TABLE = [
           why="park only after re-evaluating the caller's condition; re-evaluate after every wake")),
     (r"fibre::sync::(mutex::HybridMutex|rwlock::HybridRwLock)::<T>::(lock_slow|read_slow|write_slow)$",
      dict(kind="fence", family="hybrid-lock", reg=m(r"link_back"), barrier=m(r"fetch_or", path=r"\.state$"),
-          recheck=m(r"compare_exchange(_weak)?", path=r"\.state$"),
-          why="hybrid lock: link the node, publish HAS_QUEUED by RMW, re-attempt the acquisition CAS, park", prop="C10")),
+          recheck=m(r"load|compare_exchange(_weak)?", path=r"self\.state$"),
+          why="hybrid lock: link the node, publish HAS_QUEUED by RMW, re-read the state word (and re-attempt the acquisition CAS when free), park", prop="C10")),
     (r"fibre_cache::handles::sync::Cache::<K, V, H>::load_value_blocking$",
      dict(kind="lock", family="cache-loader", lock=m(r"lock", path=r"\.inner$"), recheck=None, reg=m(r"push_back", path=r"\.waiters$"),
           why="cache loader: register under the LoadFuture mutex on the Computing arm (C15-4), unlock, park", prop="C15")),
